@@ -191,6 +191,11 @@ where
                 .first_step
                 .map(|h| h.abs() * (xend - x0).signum())
                 .unwrap_or_else(|| (xend - x0) / 100.0);
+            // max_step limits the fixed step as it limits the steps of the adaptive methods
+            let h = match options.max_step {
+                Some(hmax) if h.abs() > hmax => hmax * (xend - x0).signum(),
+                _ => h,
+            };
             let solver = RK4::builder()
                 .max_steps(options.max_steps.unwrap_or(usize::MAX))
                 .build();
